@@ -495,6 +495,9 @@ func runReplayTestIn(dir string, src string) (string, error) {
 		return "", err
 	}
 	ov := map[string]map[string]string{"Replace": {filepath.Join(dir, "zz_verif_replay_test.go"): testFile}}
+	for real, repl := range overlayFiles {
+		ov["Replace"][real] = repl
+	}
 	ovb, _ := json.Marshal(ov)
 	ovFile := filepath.Join(tmp, "ov.json")
 	os.WriteFile(ovFile, ovb, 0o644)
